@@ -13,10 +13,12 @@
       the code offers no more) is the time derivative of the next lower order (Coquelicot is_derive);
     - extreme_is_fold + fold_is_extreme + fold_keeps_first + vfold_nth: Minimum/Maximum/MinAbs/MaxAbs (element-wise on
       vectors) return the signed sample of extreme key over the initial value, the operand at every state where the
-      auto-update ran after the measure had been evaluated, and the current state; Extreme::setValue is excluded for a
-      reason (extreme_setvalue_refuted, known finding); every statement about runs is for both variants [fx] of the model:
-      fx = false the code as it is, fx = true with the repair patches/C23_extreme_setvalue.diff, under which setValue is
-      admissible in every state (setvalue_restarts_history_when_repaired); the check decides which one the tree implements;
+      auto-update ran after the measure had been evaluated, and the current state; every statement about runs is for both
+      variants [fx] of the model: fx = true is Extreme::setValue as repaired in /repo (d4a04011 = patches/C23_extreme_setvalue.diff),
+      under which setValue is admissible in every state (setvalue_restarts_history_when_repaired); fx = false is the code
+      before that repair, for which setValue had to be excluded (extreme_setvalue_prefix_regression: the witnesses of the
+      repaired defect, replayed on the implementation every run and required to pass now); the check decides which
+      variant the tree implements;
     - Delay: copy_keeps_sorted, delay_buffer_returns_bracketing_sample (+ exhaustive cases; interpolation between the two
       bracketing samples, flat before the first, EXTRAPOLATION through the last two when t - delay is after the newest
       sample, also for delay = 0), prune_preserves_answers (pruning never changes an answer at or after t - delay, delay >= 0),
@@ -198,13 +200,15 @@ Theorem C23_extreme_is_fold_example :
 Proof. exact (@extreme_is_fold_example). Qed.
 Print Assumptions C23_extreme_is_fold_example.
 
-Theorem C23_extreme_setvalue_refuted :
+(** REGRESSION lemma for the defect repaired in /repo d4a04011: in the model of the code BEFORE the repair (fx = false)
+    Extreme::setValue after an evaluation at the current time made getValue throw, or ignore the current operand value *)
+Theorem C23_extreme_setvalue_prefix_regression :
   (exists (s : St) (ops : list Op), XS s 0%nat Maximum [PTime] [0] [] /\
      nth_error (snd (run ROps false s ops)) 3 = Some OThrow) /\
   (exists (s : St) (ops : list Op), XS s 0%nat Maximum [PTime] [10] [] /\
      nth_error (snd (run ROps false s ops)) 3 = Some (OVal [-5]) /\ vfold Maximum [-5] [[1]] = [1]).
 Proof. exact (@extreme_setvalue_refuted). Qed.
-Print Assumptions C23_extreme_setvalue_refuted.
+Print Assumptions C23_extreme_setvalue_prefix_regression.
 
 (* ---------------- from C23_Delay.v *)
 Theorem C23_copy_keeps_sorted (old : Buf) tE tNow v : sorted old -> sorted (copy_in_and_update ROps old tE tNow v).
